@@ -161,9 +161,8 @@ struct serde<std::string> {
         uint32_t length;
         is.read((char*)&length, sizeof(length));
         if (!is.good()) { break; }
-        std::string str;
-        str.reserve(length);
-        for (uint32_t j = 0; j < length; j++) {
+        std::string str; // length is not trusted: no up-front reservation, stop at the end of the stream
+        for (uint32_t j = 0; j < length && is.good(); j++) {
           str.push_back(static_cast<char>(is.get()));
         }
         if (!is.good()) { break; }
